@@ -1,6 +1,7 @@
 package props
 
 import (
+	"bytes"
 	"context"
 	"errors"
 	"fmt"
@@ -1162,6 +1163,7 @@ func C15(r *h.Run) {
 	dxFamily(r, rng, "C15", "scripted_cancel")
 	c15DeadlineWhileReceiving(r)
 	c15ServerStreamBlockedSend(r)
+	c15CloseFailsAfterContextEnd(r)
 	liveFamily(r, rng.Fork("live"), "live_cancel", true)
 }
 
@@ -1239,6 +1241,77 @@ func c15DeadlineWhileReceiving(r *h.Run) {
 					got = "success"
 				}
 				r.Fail(h.Failure{Key: "handler-deadline/not-deadline-exceeded", Family: "deadline_while_receiving", What: "the deadline passed before the handler's user code started and the peer was answered with " + got, Input: in, Expected: "deadline_exceeded", Actual: fmt.Sprint(got, " user_code_ran=", ran)})
+			}
+		}
+	}
+}
+
+// closeFailsBody: a response body that reads fine to its end and whose Close fails (the
+// connection underneath was torn down when the context ended).
+type closeFailsBody struct {
+	io.Reader
+	closed int
+}
+
+func (b *closeFailsBody) Close() error {
+	b.closed++
+	return errors.New("close tcp 127.0.0.1:1->127.0.0.1:2: use of closed network connection")
+}
+
+// c15CloseFailsAfterContextEnd: the messages of a server stream (or the response of a unary call)
+// have been read; the context ends; closing the response then fails in the transport. Whatever
+// fails after the context ended fails with the context's code.
+func c15CloseFailsAfterContextEnd(r *h.Run) {
+	for _, proto := range []string{"connect", "grpc", "grpcweb"} {
+		for _, deadline := range []bool{false, true} {
+			cfg := envCfg{Proto: proto}
+			hdr, term, trailer := responseParts(cfg)
+			body := append(h.Frame(0, []byte("one")), term...)
+			cb := &closeFailsBody{Reader: bytes.NewReader(body)}
+			canned := &h.CannedClient{Build: func(*http.Request) (*http.Response, error) {
+				res := h.NewResponse(200, hdr.Clone(), h.NewChunkBody(nil, h.FinCleanEOF), trailer.Clone())
+				res.Body = cb
+				return res, nil
+			}}
+			var ctx context.Context
+			var cancel context.CancelFunc
+			want := connect.CodeCanceled
+			if deadline {
+				want = connect.CodeDeadlineExceeded
+				ctx, cancel = context.WithTimeout(context.Background(), 60*time.Millisecond)
+			} else {
+				ctx, cancel = context.WithCancel(context.Background())
+			}
+			var ops []string
+			var closeErr error
+			timedOut, p := withWatchdog(5*time.Second, func() {
+				client := connect.NewClient[h.Raw, h.Raw](canned, "http://verif.local/verif.Svc/M", clientOpts(cfg, "")...)
+				st, err := client.CallServerStream(ctx, connect.NewRequest(&h.Raw{B: []byte("q")}))
+				ops = append(ops, "CallServerStream -> "+liveCls(err))
+				if err != nil {
+					return
+				}
+				ok := st.Receive()
+				ops = append(ops, fmt.Sprint("Receive -> ", ok))
+				if deadline {
+					<-ctx.Done()
+				} else {
+					cancel()
+				}
+				ops = append(ops, "[the context ends]")
+				closeErr = st.Close()
+				ops = append(ops, "Close -> "+liveCls(closeErr))
+			})
+			cancel()
+			in := map[string]any{"proto": proto, "kind": "server", "context": map[bool]string{true: "deadline passes", false: "cancelled"}[deadline], "transport": "the response body reads to its end; its Close fails with 'use of closed network connection'", "operations": ops}
+			r.Eval("close_fails_after_context_end", fmt.Sprint(proto, deadline))
+			if timedOut || p != nil {
+				r.Fail(h.Failure{Key: "cancel/hang-or-panic", Family: "close_fails_after_context_end", What: fmt.Sprint("hang or panic: ", p), Input: in})
+				continue
+			}
+			r.Sample("close_fails_after_context_end", in)
+			if closeErr != nil && connect.CodeOf(closeErr) != want {
+				r.Fail(h.Failure{Key: "cancel/code/Close", Family: "close_fails_after_context_end", What: "Close failed after the context had ended, with a code other than the context's", Input: in, Expected: want.String(), Actual: closeErr.Error()})
 			}
 		}
 	}
